@@ -73,10 +73,13 @@ type Step struct {
 	Max  uint   `json:"max,omitempty"` // epoch / status: MaxCertSize during this iteration (0 = no limit)
 	// epoch / status with Crash: the process dies between "SendCertificate accepted" and the local save (the save is
 	// made to fail), then restarts on the same database. restart with Lost: the certificate database is gone.
-	Crash bool   `json:"crash,omitempty"`
-	Lost  bool   `json:"lost,omitempty"`
-	ID    uint64 `json:"id,omitempty"` // move: certificate (order of acceptance by the Agglayer, from 0)
-	St    int    `json:"st,omitempty"` // move: target status 0 Pending 1 Proven 2 Candidate 3 InError 4 Settled
+	Crash bool `json:"crash,omitempty"`
+	Lost  bool `json:"lost,omitempty"`
+	// aggchain-prover flow: what the scripted prover answers during this tick for a request (lastProven, requestedEnd),
+	// with f = lastProven+1, t = requestedEnd: 0 EndBlock = t | 1 f + (t-f)/2 | 2 f | 3 t+1 (outside) | 4 f-1 (outside) | 5 error
+	Rule int    `json:"rule,omitempty"`
+	ID   uint64 `json:"id,omitempty"` // move: certificate (order of acceptance by the Agglayer, from 0)
+	St   int    `json:"st,omitempty"` // move: target status 0 Pending 1 Proven 2 Candidate 3 InError 4 Settled
 }
 
 // Seed is a certificate that exists before the sender starts (a node restarted on its database, or a table rebuilt
@@ -91,10 +94,11 @@ type Seed struct {
 }
 
 type In struct {
-	Retry      bool   `json:"retry"`       // RetryCertAfterInError
-	AggPrev    bool   `json:"agg_prev"`    // the Agglayer's certificate headers carry prev_local_exit_root
-	StartBlock uint64 `json:"start_block"` // StartL2Block
-	Pre        []Step `json:"pre"`         // blocks synced before the sender starts (the last one is >= StartBlock)
+	Flow       string `json:"flow,omitempty"` // "" / "pp": PPFlow; "fep": AggchainProverFlow with a scripted prover
+	Retry      bool   `json:"retry"`          // RetryCertAfterInError
+	AggPrev    bool   `json:"agg_prev"`       // the Agglayer's certificate headers carry prev_local_exit_root
+	StartBlock uint64 `json:"start_block"`    // StartL2Block
+	Pre        []Step `json:"pre"`            // blocks synced before the sender starts (the last one is >= StartBlock)
 	Seeds      []Seed `json:"seeds,omitempty"`
 	Steps      []Step `json:"steps"`
 	Tag        string `json:"tag,omitempty"`
@@ -316,7 +320,7 @@ func (fakeL1) GetLatestFinalizedL1InfoRoot(context.Context) (*treetypes.Root, *l
 	return &treetypes.Root{Hash: fixedRoot, Index: 7}, nil, nil
 }
 func (fakeL1) GetFinalizedL1InfoTreeData(context.Context) (treetypes.Proof, *l1infotreesync.L1InfoTreeLeaf, *treetypes.Root, error) {
-	return treetypes.Proof{}, nil, nil, errors.New("verif: not used by the PP flow")
+	return treetypes.Proof{}, &l1infotreesync.L1InfoTreeLeaf{L1InfoTreeIndex: 7, Timestamp: 5}, &treetypes.Root{Hash: fixedRoot, Index: 7}, nil
 }
 func (fakeL1) GetProofForGER(_ context.Context, ger, _ common.Hash) (*l1infotreesync.L1InfoTreeLeaf, treetypes.Proof, error) {
 	return &l1infotreesync.L1InfoTreeLeaf{L1InfoTreeIndex: 3, GlobalExitRoot: ger, Timestamp: 5}, treetypes.Proof{}, nil
@@ -324,6 +328,44 @@ func (fakeL1) GetProofForGER(_ context.Context, ger, _ common.Hash) (*l1infotree
 func (fakeL1) CheckIfClaimsArePartOfFinalizedL1InfoTree(*treetypes.Root, []bridgesync.Claim) error {
 	return nil
 }
+
+// scripted aggchain prover, GER querier, optimistic-mode querier (aggchain-prover flow)
+type fakeProver struct{ rule int }
+
+func (p *fakeProver) GenerateAggchainProof(_ context.Context, req *aggsendertypes.AggchainProofRequest) (*aggsendertypes.AggchainProof, error) {
+	f, t := req.LastProvenBlock+1, req.RequestedEndBlock
+	var e uint64
+	switch p.rule {
+	case 0:
+		e = t
+	case 1:
+		e = f + (t-f)/2
+	case 2:
+		e = f
+	case 3:
+		e = t + 1
+	case 4:
+		e = req.LastProvenBlock
+	default:
+		return nil, errors.New("verif: scripted prover failure")
+	}
+	return &aggsendertypes.AggchainProof{LastProvenBlock: req.LastProvenBlock, EndBlock: e, CustomChainData: []byte{7},
+		AggchainParams: common.HexToHash("0x22"), Context: map[string][]byte{"k": {1}},
+		SP1StarkProof: &aggsendertypes.SP1StarkProof{Version: "v", Proof: []byte{1, 2}, Vkey: []byte{3}}}, nil
+}
+func (p *fakeProver) GenerateOptimisticAggchainProof(*aggsendertypes.AggchainProofRequest, []byte) (*aggsendertypes.AggchainProof, error) {
+	return nil, errors.New("verif: optimistic mode is off")
+}
+
+type fakeGER struct{}
+
+func (fakeGER) GetInjectedGERsProofs(context.Context, *treetypes.Root, uint64, uint64) (map[common.Hash]*agglayertypes.ProvenInsertedGERWithBlockNumber, error) {
+	return map[common.Hash]*agglayertypes.ProvenInsertedGERWithBlockNumber{}, nil
+}
+
+type fakeOptimistic struct{}
+
+func (fakeOptimistic) IsOptimisticModeOn() (bool, error) { return false, nil }
 
 type fakeLER struct{ ler common.Hash }
 
@@ -410,7 +452,14 @@ func errClass(s string) string {
 		return "not_closed"
 	case strings.Contains(s, "error saving"):
 		return "storage"
+	case strings.Contains(s, "error adjusting the range of the certificate"):
+		return "prover_range"
+	case strings.Contains(s, "error generating aggchain proof"):
+		return "prover"
 	default:
+		if len(s) > 80 {
+			s = s[:80]
+		}
 		return "other:" + s
 	}
 }
@@ -535,7 +584,15 @@ func run(in In, n int) (out Out) {
 		out.Seeds = append(out.Seeds, RowObs{Height: sd.Height, ID: int64(k), Status: sd.Status, From: sd.From, To: sd.To,
 			Prev: &ps, New: hlib.Hex(newLER[:]), Retry: sd.Retry})
 	}
-	v := aggsender.NewVerifAggSenderC02(logger, storage, agg, bs, fakeL1{}, fakeLER{startLER}, signer{}, in.Retry, in.StartBlock)
+	prover := &fakeProver{}
+	newSender := func() *aggsender.VerifAggSenderC02 {
+		if in.Flow == "fep" {
+			return aggsender.NewVerifAggSenderFEPC02(logger, storage, agg, bs, fakeL1{}, fakeLER{startLER}, signer{}, prover, fakeGER{},
+				fakeOptimistic{}, in.Retry, in.StartBlock)
+		}
+		return aggsender.NewVerifAggSenderC02(logger, storage, agg, bs, fakeL1{}, fakeLER{startLER}, signer{}, in.Retry, in.StartBlock)
+	}
+	v := newSender()
 	// what Start does before the loop; it retries for ever when the local table contradicts the Agglayer
 	ctxInit, cancel := context.WithTimeout(ctx, 3*time.Second)
 	err = v.VerifInitialStatusC02(ctxInit)
@@ -587,10 +644,11 @@ func run(in In, n int) (out Out) {
 			}
 		}
 		storage = openStorage()
-		v = aggsender.NewVerifAggSenderC02(logger, storage, agg, bs, fakeL1{}, fakeLER{startLER}, signer{}, in.Retry, in.StartBlock)
+		v = newSender()
 		return attempt()
 	}
 	tick := func(s Step, epoch bool, so *StepObs) {
+		prover.rule = s.Rule
 		switch {
 		case recovering: // the process is still inside CheckInitialStatus
 			so.Recov = attempt()
